@@ -250,7 +250,7 @@ theorem open_runs (F : Frame inpS inpW δ) (hops : OpsSim env.ops inpS inpW δ K
     (∃ mw' sig', Runs env inpW mw mw' sig' ∧ LockOut env.tbl fs inpW δ K Loc false (ms', some sig) (mw', some sig')) ∨
     (∃ (d1 : Nat) (x0 : Ctx κ) (mw1 : M κ), (∀ m' s, Runs env inpW mw1 m' s → Runs env inpW mw m' s) ∧
       K d1 x0.sink mw1.x.sink ∧ mw1.x.sim = x0.sim ∧ x0.prevConsumed = mw1.x.prevConsumed + δ ∧
-      BreakOut env.tbl fs env.ops inpS inpW δ d1 x0 mw1 (ms', some sig)) := by
+      BreakOut env.tbl fs env.ops Loc inpS inpW δ d1 x0 mw1 (ms', some sig)) := by
   induction hr with
   | done h =>
     intro d skip mw hl hb hK hloc
